@@ -23,7 +23,10 @@ package stack
 //@   ensures size.def: result == len(s.entries)
 //@   panics never
 //@
+// (C03: that optimised and unoptimised code agree also rests on the stack taking whatever is pushed -
+// the two differ in how deep the stack gets)
 //@ func (s *Stack) Push(value object.Object)
+//@   tags C03 C08
 //@   requires push.good: validObj(value)
 //@   modifies s.entries, s.entries[*]
 //@   ensures push.len: len(s.entries) == old(len(s.entries)) + 1
